@@ -68,9 +68,23 @@ def run(chk):
     muts = mutants(chk.rng, n)
     good = 'rule ok { strings: $a = "needle" condition: $a }'
     cases = []
+    # include chains around YR_MAX_INCLUDE_DEPTH: the last file holds a rule, a syntax error, or yet another include
+    K = vlib.consts()
+    maxdepth = int(K.get("YR_MAX_INCLUDE_DEPTH", 16))
+    extra = {}
+    for d in [1, 2, maxdepth - 2, maxdepth - 1, maxdepth, maxdepth + 1, maxdepth + 2, maxdepth + 3, 3 * maxdepth]:
+        for last in ["rule deep { condition: true }", "rule deep { condition: }", 'include "nope.yar"']:
+            files = ["file ch%d_%d.yar %s" % (d, k, hx(('include "ch%d_%d.yar"\nrule r%d { condition: true }' % (d, k + 1, k)).encode())) for k in range(1, d)]
+            files.append("file ch%d_%d.yar %s" % (d, d, hx(last.encode())))
+            extra[len(muts)] = files
+            muts.append(("include-chain", 'include "ch%d_1.yar"\nrule top { condition: true }' % d))
+    chain_expect = {}
     for i, (kind, src) in enumerate(muts):
         b = src if isinstance(src, bytes) else src.encode()
-        cases.append(("m%d" % i, ["file inc.yar " + hx(b'rule inc_rule { condition: true }'), "file self.yar " + hx(b'include "self.yar"'),
+        if kind == "include-chain":
+            d = int(re.search(r"ch(\d+)_1", src).group(1))
+            chain_expect["m%d" % i] = d
+        cases.append(("m%d" % i, extra.get(i, []) + ["file inc.yar " + hx(b'rule inc_rule { condition: true }'), "file self.yar " + hx(b'include "self.yar"'),
                                   "newcompiler", "defi ext_i 1", "defs ext_s " + hx(b"abc"), "add " + hx(b),
                                   "force destroycompiler", "force newcompiler2", "force add " + hx(good.encode()), "force getrules2",
                                   "force scanner 0", "force scan " + hx(b"xx needle yy"), "force sdestroy", "force destroyrules", "force destroycompiler"]))
@@ -116,6 +130,11 @@ def run(chk):
         if (nerr > 0) != (ecb > 0) or (nerr != ecb):
             chk.violation("accounting", "error count %d but %d error callbacks (%s)" % (nerr, ecb, kind), replay)
             continue
+        if cid in chain_expect and chain_expect[cid] >= maxdepth + 1 and nerr == 0:
+            # the top-level source is not on the stack: ch_1 .. ch_d are d pushes on top of it
+            chk.violation("include-depth", "an include chain of %d files below the top-level source (YR_MAX_INCLUDE_DEPTH = %d) compiles without error"
+                          % (chain_expect[cid], maxdepth), replay)
+            continue
         if cid.startswith("m"):
             sc = [l for l in lines if l.startswith("scan msgs=")]
             if not sc or "M:default:ok" not in sc[0] or " rc=0" not in sc[0]:
@@ -130,7 +149,7 @@ def run(chk):
     chk.note(evaluations=len(cases), distinct_nontrivial=len(nontriv), input_kinds=kinds, traces_validated_against_impl=okc,
              sanitizer="ASan+UBSan build of libyara and harness, LeakSanitizer check at the end of every case",
              rule="token-level truncations/deletions/duplications of 6 seed rule files covering all sections, oversized constructs, "
-                  "byte-level mutations, include loops; plus the constant-expression operand sweep; distinct = (kind, error count class, size class)")
+                  "byte-level mutations, include loops, include chains of depth 1..3*YR_MAX_INCLUDE_DEPTH ending in a rule / a syntax error / a missing file; plus the constant-expression operand sweep; distinct = (kind, error count class, size class)")
     chk.sample({"kind": muts[5][0], "source": muts[5][1] if isinstance(muts[5][1], str) else muts[5][1].hex()})
     chk.sample({"kind": muts[-1][0], "source": muts[-1][1] if isinstance(muts[-1][1], str) else muts[-1][1].hex()})
     chk.assumptions += ["accept/reject of the grammar itself is not modelled: only accounting, diagnosis, crash/leak freedom and the aftermath are checked"]
